@@ -173,6 +173,25 @@ Theorem C01_graph_sched_all_callers :
 Proof. exact graph_sched_reqs. Qed.
 Print Assumptions C01_graph_sched_all_callers.
 
+(* "each one seeing the state left by the previous one": a locked section (transition, teardown,
+   forced state) acts on the state it finds once it has the mutex - its leave hooks are those of
+   that state, in DONE nothing runs and nothing is written, a teardown without force commits from
+   STANDBY / DEPLOYED only; by C01_serial_refines_seq that state is the one left by the previous
+   section.  In the source of this run no read of the FSM state in TryTransition, ForceError or
+   TeardownEnvironment precedes the acquisition of the transition mutex (translator) *)
+Theorem C01_section_sees_current_state :
+  (forall o a st s, In (Hook (MLeave s)) (sec_trace (act_section env_events api_bodyful o a st)) -> s = st) /\
+  (forall o a, act_ok a -> sec_commit (act_section env_events api_bodyful o a sDONE) = None /\
+                           sec_trace (act_section env_events api_bodyful o a sDONE) = []) /\
+  (forall o st d u, sec_commit (act_section env_events api_bodyful o (ATeardown false) st) = Some (d, u) ->
+                    st = sSTANDBY \/ st = sDEPLOYED).
+Proof. exact (conj act_section_leave (conj act_section_done teardown_unforced_commit)). Qed.
+Print Assumptions C01_section_sees_current_state.
+
+Theorem C01_state_read_under_mutex : env_prelock_state_reads = 0.
+Proof. exact state_read_under_mutex. Qed.
+Print Assumptions C01_state_read_under_mutex.
+
 (* serialisation: every schedule is an atomic execution (one whole action - a locked section is one
    action - at a time, each seeing the world left by the previous one) of the same threads, in the
    order in which the sections commit *)
